@@ -143,9 +143,25 @@ def shape_posonly(eoe):
     return p
 
 
-SHAPES = {"flat": shape_flat, "classes": shape_classes, "sub": shape_sub, "links": shape_links, "pos": shape_posonly}
+FX = {}
+
+
+def shape_dcf(eoe):
+    """flat parser with an existing default config file and a required option"""
+    p = ArgumentParser(exit_on_error=eoe, prog="app", env_prefix="APP", default_env=False, default_config_files=[FX["ok"]])
+    p.add_argument("--cfg", action=ActionConfigFile)
+    p.add_argument("--num", type=int, default=1)
+    p.add_argument("--req", type=int, required=True)
+    p.add_argument("--name", type=str, default="n")
+    p.add_argument("--list", type=List[int], default=[0])
+    p.add_argument("--g.x", type=int, default=0)
+    return p
+
+
+SHAPES = {"dcf": shape_dcf, "flat": shape_flat, "classes": shape_classes, "sub": shape_sub, "links": shape_links, "pos": shape_posonly}
 
 OPTIONS = {
+    "dcf": ["cfg", "num", "req", "name", "list", "g.x", "g"],
     "flat": ["cfg", "num", "ratio", "name", "flag", "yes", "no_yes", "list", "dict", "tup", "opt", "color", "pos", "g.x", "g.h.y", "g", "g.h", "choice", "many", "any"],
     "classes": ["cfg", "sub", "osub", "subs", "dsub", "holder", "dc", "odc", "grp", "tp", "kw", "dec", "rng", "sub.init_args.a", "sub.class_path", "sub.a", "sub.init_args", "holder.child", "holder.init_args.child", "holder.init_args.child.init_args.a",
                 "dc.inner.name", "dc.inner.tags", "dc.pt", "grp.c", "kw.dict_kwargs", "kw.dict_kwargs.z", "kw.init_args.q", "subs.init_args.a", "dsub.k", "dsub.k.init_args.a", "sub.help", "osub.help"],
@@ -215,6 +231,9 @@ def gen_argv(rng, shape, fx):
         else:
             argv += [f"--{opt}+", val] if not opt.endswith("+") else [f"--{opt}={val}"]
         classes.append(f"{ocls}:{opt if ocls == 'known' else ocls}:{vcls}")
+    if rng.random() < 0.12:
+        argv.insert(rng.randrange(len(argv) + 1), rng.choice(["--print_config", "--print_config=skip_null", "--req=1"]))
+        classes.append("special:print_config-or-req")
     if shape == "sub" and rng.random() < 0.6:
         pos = rng.randrange(len(argv) + 1)
         argv[pos:pos] = rng.choice([["fit"], ["fit", "3"], ["test"], ["test", "deep"], ["fit", "x"], ["nope"]])
@@ -409,6 +428,16 @@ def case(ctx, i, rng, fx):
         ctx.violation("termination", f"step-budget-exceeded/{culprit}", dict(shape=shape, method=method, payload=short(pcopy, 600), env=env, classes=cl, budget=STEP_BUDGET))
         return
     bad = classify_outcome(o, eoe)
+    if bad is None and i % 2 == 0 and method != "parse_object" and (o.accepted or o.rejected or (o.kind == "exit" and o.code == 0)):
+        # the two exit_on_error modes report the same decision: what fails in one cannot print a config and exit 0 in the other
+        o2, _ = run_call(SHAPES[shape](not eoe), method, copy.deepcopy(pcopy), env)
+        ctx.count("mon.exit_on_error_modes_compared")
+        cls = lambda oo: "rejected" if oo.rejected else ("accepted-or-exit0" if (oo.accepted or (oo.kind == "exit" and oo.code == 0)) else "other")  # noqa: E731
+        if {cls(o), cls(o2)} == {"rejected", "accepted-or-exit0"}:
+            fam = {"parse_args": "argv", "parse_args_env": "env", "parse_env": "env", "parse_string": "text", "parse_path": "path"}[method]
+            first, second = (o, o2) if eoe else (o2, o)
+            ctx.violation("outcome", f"failure-in-one-exit_on_error-mode-only/{'exit0' if first.kind == 'exit' and first.code == 0 else first.kind}-when-exiting-vs-{second.kind}<-{fam}", dict(shape=shape, method=method, payload=short(pcopy, 600), env=env, exit_on_error_true=first.brief(), exit_on_error_false=second.brief()))
+        return
     if bad is None:
         return
     sig_of = lambda oo: (classify_outcome(oo, eoe), oo.frame)  # noqa: E731
@@ -437,6 +466,7 @@ def token_class(t):
 
 
 def run_shard(ctx):
+    FX.update(make_fixture(ctx.workdir))
     global STEPS
     STEPS = Steps()
     fx = make_fixture(ctx.workdir)
